@@ -281,8 +281,11 @@ def run_case(ctx, h, m, schema, files, strict, workdir, tag, layout_seed=None, k
     e = oracle(files, reads_h, final, written, schema)
     shift = G.shift_inst
     if e:
-        if known is None or oracle(files, reads_h, final, written, schema, shift=flat_shift):
+        if known is None:
             return ("property", e)
+        e2 = oracle(files, reads_h, final, written, schema, shift=flat_shift)
+        if e2:      # something else than the recorded class: report that
+            return ("property", e2)
         known.append(e)
         shift = flat_shift
     # the same for the population as the session holds it (what an application sees; the only place where a
